@@ -29,12 +29,74 @@ pub fn words(a: AssemblerArm64) -> Words {
     words_of(a.finalize(4).code())
 }
 
-/// For composite helpers (symbolic number of emitted words): `finalize(1)`.  With a symbolic
-/// buffer length the padding loop of `align_to(4)` (`while len % 4 != 0 { brk }`) cannot be
-/// bounded by the model checker although it never iterates; it is exercised with `finalize(4)`
-/// by every single-word harness.  The result is checked to be a whole number of words.
-pub fn words1(a: AssemblerArm64) -> Words {
-    words_of(a.finalize(1).code())
+// ---- overwrite mode ------------------------------------------------------------------------
+// Composite helpers (mov_imm, ldr_mem_*, ...) and label sequences emit a SYMBOLIC number of words.
+// Appending a symbolic number of words to a Vec makes its length, capacity and data pointer
+// symbolic, which the bounded model checker cannot handle (measured: > 15 min per harness).
+// Those harnesses therefore run the assembler in its overwrite mode, which is part of the public
+// API (set_position is what dora uses for patching): the buffer is pre-filled with a few
+// NOPs, the position is set back, and the method under test overwrites words through the
+// `position != code.len()` branch of `AssemblerBuffer::emit_u32`.  The append branch of
+// `emit_u32` is covered by every single-instruction harness.  Under Kani `Vec::reserve` is
+// stubbed by `reserve_once` (one exact up-front reservation, then an assertion that no growth is
+// needed), which makes the infeasible append branch end at a constant-false assumption instead of
+// re-growing the buffer symbolically.
+/// pre-fill sizes (words): composite helpers emit at most 5 words; label harnesses need
+/// 1 + 2 + NEAR filler + 1 words.  Small on purpose: the cost of the model checker's array
+/// reasoning grows steeply with the size of the buffer (measured 262 s vs 30 s for 40 vs 8 words).
+pub const PREFILL_SMALL: usize = 8;
+pub const PREFILL_LABEL: usize = 16;
+pub const NOP_WORD: u32 = 0xD503201F;
+
+#[cfg(kani)]
+pub fn reserve_once_small<T, A: std::alloc::Allocator>(v: &mut Vec<T, A>, additional: usize) {
+    if v.capacity() == 0 {
+        v.reserve_exact(4 * PREFILL_SMALL);
+    }
+    assert!(v.capacity() - v.len() >= additional, "STUB buffer growth beyond the pre-filled words");
+}
+
+#[cfg(kani)]
+pub fn reserve_once_label<T, A: std::alloc::Allocator>(v: &mut Vec<T, A>, additional: usize) {
+    if v.capacity() == 0 {
+        v.reserve_exact(4 * PREFILL_LABEL);
+    }
+    assert!(v.capacity() - v.len() >= additional, "STUB buffer growth beyond the pre-filled words");
+}
+
+pub fn prefilled_n(words: usize) -> AssemblerArm64 {
+    let mut a = AssemblerArm64::new();
+    let nops: u128 = (NOP_WORD as u128) | (NOP_WORD as u128) << 32 | (NOP_WORD as u128) << 64 | (NOP_WORD as u128) << 96;
+    let mut i = 0;
+    while i < words / 4 {
+        a.emit_u128(nops);
+        i += 1;
+    }
+    a.set_position(0);
+    a
+}
+
+pub fn prefilled() -> AssemblerArm64 { prefilled_n(PREFILL_SMALL) }
+pub fn prefilled_label() -> AssemblerArm64 { prefilled_n(PREFILL_LABEL) }
+
+/// the words written since position 0 (overwrite mode)
+pub fn words_written(mut a: AssemblerArm64) -> Words {
+    let n = a.position();
+    a.set_position_end();
+    let code = a.finalize(4).code();
+    let mut r = Words { n: n / 4, w: [0; MAXW] };
+    if n % 4 != 0 || r.n > MAXW || code.len() != 4 * PREFILL_SMALL {
+        r.n = usize::MAX;
+        return r;
+    }
+    let mut i = 0;
+    while i < MAXW {
+        if i < r.n {
+            r.w[i] = word_at(&code, i);
+        }
+        i += 1;
+    }
+    r
 }
 
 fn words_of(code: Vec<u8>) -> Words {
@@ -225,14 +287,14 @@ pub fn bitmask_imm_ok(imm: u64, regsize: u32) -> bool {
     v == v.rotate_left(e) // e == 0 stands for the 64-bit element: trivially periodic
 }
 
-/// movz/movn/movk chain semantics; (ok, final register value in the 64-bit view).  !ok when a
-/// word is not a move-wide to `rd` of the right width or the chain does not start with MOVZ/MOVN.
+/// movz/movn/movk chain semantics, evaluated per 16-bit lane (no variable shifts: cheap for the
+/// SAT solver).  Words 0 .. to-1 (at most 4) must all be move-wide instructions on `rd` of width
+/// `sf`, the first MOVZ or MOVN, the others MOVK.  Returns (ok, final register value, 64-bit view).
 pub fn mov_chain(w: &Words, to: usize, rd: Reg, sf: u8) -> (bool, u64) {
-    // words 0 .. to-1 (at most 4) are the chain
-    let mut val: u64 = 0;
     if to == 0 || to > 4 {
         return (false, 0);
     }
+    let (mut h0, mut h1, mut h2, mut h3) = (0u64, 0u64, 0u64, 0u64);
     let mut i = 0;
     while i < 4 {
         if i < to {
@@ -240,23 +302,32 @@ pub fn mov_chain(w: &Words, to: usize, rd: Reg, sf: u8) -> (bool, u64) {
             if !d.form_is(MovWide) || !d.rd_is(rd) || d.size() != sf {
                 return (false, 0);
             }
-            let sh = (d.imm2() as u32) & 63;
-            let piece = (d.imm as u64) << sh;
+            let lane = d.imm2(); // 0, 16, 32, 48
+            let v = (d.imm as u64) & 0xffff;
             if i == 0 {
-                if d.op_is(MOVZ) { val = piece; } else if d.op_is(MOVN) { val = !piece; } else { return (false, 0); }
+                let (hit, miss) = if d.op_is(MOVZ) { (v, 0u64) } else if d.op_is(MOVN) { (v ^ 0xffff, 0xffffu64) } else { return (false, 0); };
+                h0 = if lane == 0 { hit } else { miss };
+                h1 = if lane == 16 { hit } else { miss };
+                h2 = if lane == 32 { hit } else { miss };
+                h3 = if lane == 48 { hit } else { miss };
             } else {
                 if !d.op_is(MOVK) {
                     return (false, 0);
                 }
-                val = (val & !(0xffffu64 << sh)) | piece;
+                if lane == 0 { h0 = v; }
+                if lane == 16 { h1 = v; }
+                if lane == 32 { h2 = v; }
+                if lane == 48 { h3 = v; }
             }
             if sf == 0 {
-                val &= 0xffff_ffff; // a W write zero-extends
+                // a W write zero-extends
+                h2 = 0;
+                h3 = 0;
             }
         }
         i += 1;
     }
-    (true, val)
+    (true, h0 | h1 << 16 | h2 << 32 | h3 << 48)
 }
 
 /// post-condition of `mov_imm` / `mov_imm_w`
